@@ -124,7 +124,10 @@ Section Run.
         match nth_error (rp_log (w_rp w)) pos with
         | Some (hid, mk) =>
             let c := (N.of_nat pos) in
-            let value := [99] ++ dec_digits c in
+            (* every third committed publish repeats the previous content (a no-op publish that may
+               still carry a history_table_id mark) *)
+            let cv := if (c mod 3 =? 2)%N then (c - 1)%N else c in
+            let value := [99] ++ dec_digits cv in
             let '(a', _) := step H (cur w) (MRaft (ConfigAdd ks value None None hid mk (1000 + c) None)) in
             apply_loop f ks (set_applied (set_cur w a') (w_cur w) (S pos)) (n + 1)
         | None => (w, OCount n)
